@@ -118,57 +118,22 @@ theorem ti_resegment_body_eq_model (cl : List A → List (List A)) (al : List A 
       (TextInputCl.resegment cl m).map fun m' => (envOfTI m', .opaque) :=
   resegment_body_eq_model cl al m
 
-/-- The key strings whose arm of `Update` is proved equal to the model's (no loop inside). -/
-def provenKeys : List String :=
-  ["Ctrl+a", "Home", "Ctrl+e", "End", "Ctrl+f", "Right", "Ctrl+b", "Left", "Ctrl+d", "Delete", "Ctrl+k", "Ctrl+u", "Ctrl+h", "BackSpace"]
-
-/-- The events for which `Update`'s translated body is proved to be the model: everything but key
-    presses, the fourteen keys above, and Ctrl+w with the cursor inside a non-empty prefix. -/
-def Covered (m : TextInputCl.TIC A) : TextInputCl.Ev A → Prop
-  | .key s _ _ _ _ => s ∈ provenKeys ∨ (s = "Ctrl+w" ∧ m.cursor ≠ 0 ∧ 0 ≤ m.cursor ∧ m.cursor ≤ m.content.length)
-  | _ => True
-
-/-- The full statement (open for Alt+f / Alt+b / Ctrl+Right / Ctrl+Left, Ctrl+w outside the range, and the
-    default arm; there the driver compares the interpreted body with the model on every op). -/
-def ti_update_body_eq_model_full : Prop :=
-  ∀ (A : Type) [DecidableEq A] (cl : List A → List (List A)) (al : List A → Bool) (m : TextInputCl.TIC A) (ev : TextInputCl.Ev A),
-    tiRunUpdate genTi cl al m ev = TextInputCl.update cl al m ev
-
 open VaxisModel.Lemmas.EdLangTIBody in
-/-- `Update`: the type switch, the paste bracket (PasteEnd inserts `Characters(string(m.paste))`, paste keys
-    append to the buffer), the release test, the key map, the final clamping and `m.resegment()` — translated
-    from the source and run by the interpreter — is the model's `update`, result for result, panic for panic,
-    on every covered event. -/
-theorem ti_update_body_eq_model_partial (cl : List A → List (List A)) (al : List A → Bool) (m : TextInputCl.TIC A)
-    (ev : TextInputCl.Ev A) (h : Covered m ev) :
-    tiRunUpdate genTi cl al m ev = TextInputCl.update cl al m ev := by
-  cases ev with
-  | pasteEnd => exact update_pasteEnd cl al m
-  | release => exact update_release cl al m
-  | pasteKey t => exact update_pasteKey cl al m t
-  | other => exact update_other cl al m
-  | key s c a sup t =>
-    rcases h with h | ⟨rfl, h0, hr⟩
-    · simp only [provenKeys, List.mem_cons, List.mem_nil_iff, or_false] at h
-      rcases h with rfl | rfl | rfl | rfl | rfl | rfl | rfl | rfl | rfl | rfl | rfl | rfl | rfl | rfl
-      · exact update_ctrl_a cl al m c a sup t
-      · exact update_home cl al m c a sup t
-      · exact update_ctrl_e cl al m c a sup t
-      · exact update_end cl al m c a sup t
-      · exact update_ctrl_f cl al m c a sup t
-      · exact update_right cl al m c a sup t
-      · exact update_ctrl_b cl al m c a sup t
-      · exact update_left cl al m c a sup t
-      · exact update_ctrl_d cl al m c a sup t
-      · exact update_delete cl al m c a sup t
-      · exact update_ctrl_k cl al m c a sup t
-      · exact update_ctrl_u cl al m c a sup t
-      · exact update_ctrl_h cl al m c a sup t
-      · exact update_backspace cl al m c a sup t
-    · exact update_ctrl_w_inrange cl al m c a sup t h0 hr
+/-- `Update`, for EVERY event and every state: the type switch, the paste bracket (PasteEnd inserts
+    `Characters(string(m.paste))`, paste keys append to the buffer), the release test, the whole key map
+    (`switch msg.String()`: the nineteen labels, the word-motion and kill-word loops with their index
+    expressions, the slice expressions of the deleting arms, the default arm's modifier guards and its loop of
+    `slices.Insert`), the final clamping and `m.resegment()` — translated from the source and run by the
+    interpreter — is the model's `update`: result for result, panic for panic.  (`cl [] = []`: the empty
+    string has no character — law 2 of `Segmentation` at `i = 0`.) -/
+theorem ti_update_body_eq_model (cl : List A → List (List A)) (hnil : cl [] = []) (al : List A → Bool) (m : TextInputCl.TIC A)
+    (ev : TextInputCl.Ev A) :
+    tiRunUpdate genTi cl al m ev = TextInputCl.update cl al m ev :=
+  update_body_eq_model cl hnil al m ev
 
-/-- Non-vacuity: Ctrl+w in the middle of "ab cd" is covered. -/
-example : Covered (A := Nat) ⟨[[1], [2], [0], [3], [4]], 5, 0, []⟩ (.key "Ctrl+w" false false false []) := by
-  right; decide
+/-- Non-vacuity / a computed instance: Ctrl+w behind "ab cd" through the translated body. -/
+example : tiRunUpdate genTi (VaxisModel.Lemmas.EditorCl.singletons (A := Nat)) (fun c => c != [0])
+    ⟨[[1], [2], [0], [3], [4]], 5, 0, []⟩ (.key "Ctrl+w" false false false []) = some ⟨[[1], [2], [0]], 3, 0, []⟩ := by
+  decide
 
 end VaxisModel.Props.C17Body
